@@ -64,6 +64,9 @@ def generate(rng, tier):
         listing = list(range(len(dec["conn"])))
         rng.shuffle(listing)
         case["listing"] = listing
+        # ... and so are the labels the dataset gives its faces (0..n-1, 1-based, any distinct integers)
+        nf_ = len(dec["conn"])
+        case["labels"] = None if rng.random() < 0.7 else rng.choice([list(range(1, nf_ + 1)), rng.sample(range(0, 12), nf_)])
         if aligned and rng.random() < 0.8:
             if rng.random() < 0.5:
                 case["rule"] = "fill"
@@ -96,11 +99,12 @@ def run_impl(case):
             for i in range(N):
                 gx, gy = atlas.chart_apply(c, (i, j))
                 Fv[f, j, i] = Gf[gy, gx]
-    ds = xr.Dataset(coords={"face": np.arange(nf), "xc": np.arange(N), "xg": np.arange(N),
+    lab = case.get("labels") or list(range(nf))      # how the dataset labels its faces
+    ds = xr.Dataset(coords={"face": np.array(lab), "xc": np.arange(N), "xg": np.arange(N),
                             "yc": np.arange(N), "yg": np.arange(N)})
     listed = [d["conn"][i] for i in case.get("listing", range(len(d["conn"])))]
-    fc = {"face": {f: {a: (tuple(l) if l else None, tuple(r) if r else None) for a, (l, r) in fal}
-                   for f, fal in listed}}
+    lk = lambda l: (lab[l[0]], l[1], l[2]) if l else None
+    fc = {"face": {lab[f]: {a: (lk(l), lk(r)) for a, (l, r) in fal} for f, fal in listed}}
     try:
         g = Grid(ds, coords={"X": {"center": "xc", "left": "xg", "right": "xg2"} if False else
                              {"center": "xc", "left": "xg"},
